@@ -1587,6 +1587,46 @@ fn real_clock_scenario(out: &mut Out) {
     c.out.count("real-clock");
 }
 
+/// The host's rebirth cooldown under the UNMOCKED wall clock (`eval_rebirth` reads `SystemTime`; the mock
+/// shadows the reading): cooldown 1 s - a trigger gets its NCMD, one right behind it does not, one after
+/// 1.1 s of real time does. Direct oracle only.
+fn real_clock_cooldown_scenario(out: &mut Out) {
+    use srad_types::utils::verif_hooks;
+    use std::time::{SystemTime, UNIX_EPOCH};
+    let wall = || SystemTime::now().duration_since(UNIX_EPOCH).unwrap().as_millis() as u64;
+    let cfg = cfg_default("-", 1000, 1);
+    let mut c = Case::begin(out, &cfg, 1_000_000);
+    c.out.set_desc("real-clock-cooldown".into());
+    verif_hooks::set_mock_timestamp(None);
+    verif_hooks::set_mock_wall(None);
+    let rt = c.sess.rt.take().expect("own runtime");
+    let trigger = |sess: &mut Sess| -> usize {
+        // data from a node the host holds no birth for
+        let op = format!("host ev n1 ndata seq=1 ts={} id=5 ans=ok now=0", wall());
+        let w: Vec<&str> = op.split(' ').collect();
+        let ev = sess.build_event(&w, wall()).expect("event");
+        sess.push(ev);
+        rt.block_on(ev_tick());
+        sess.effects().iter().filter(|(n, e)| n == "n1" && e == "ncmd").count()
+    };
+    let a = trigger(&mut c.sess);
+    let b = trigger(&mut c.sess);
+    std::thread::sleep(Duration::from_millis(1100));
+    let d = trigger(&mut c.sess);
+    let e = trigger(&mut c.sess);
+    if (a, b, d, e) != (1, 0, 1, 0) {
+        c.out.fail(
+            "C07:trigger-requests-rebirth",
+            "real-clock-cooldown",
+            format!("rebirth NCMDs per trigger under the real clock with a 1 s cooldown: first {}, at once {}, after 1.1 s {}, at once {} (expected 1,0,1,0)", a, b, d, e),
+        );
+    }
+    c.sess.rt = Some(rt);
+    set_clocks(c.now);
+    c.out.nontrivial();
+    c.out.count("real-clock-cooldown");
+}
+
 /// C20, last sentence, host side: `AppClient::try_publish_metrics` uses only the client's non-blocking
 /// calls - with a client that parks every blocking call it still returns at once, for node and device
 /// command topics (no model line: a direct check of the real call)
@@ -1664,6 +1704,7 @@ pub fn run(args: &Args, out: &mut Out) -> &'static str {
     small_timestamp_scenario(out);
     fast_node_clock_replay_scenario(out);
     real_clock_scenario(out);
+    real_clock_cooldown_scenario(out);
     app_try_publish_scenario(out);
     // (c) exhaustive soups
     let l = if th { 4 } else { 3 };
